@@ -132,6 +132,17 @@ pub fn run(id: &str) -> i32 {
             let r = catch_unwind(|| edf::limited_preemptive::dedicated_uniproc_rta(&edf::limited_preemptive::TaskUnderAnalysis { wcet: wcet::Scalar::new(s(2)), arrivals: &Never {}, deadline: d(38), last_np_segment: s(2) }, &lp, d(173)));
             r.is_err()   // checked build: panic; a release build wraps silently
         }
+        // KF19: steps_iter of an ArrivalCurvePrefix without steps never terminates after the leading 0:
+        // `(0..).flat_map(|cycle| self.steps.iter()...)` over an empty step list spins forever
+        "KF19" => {
+            let (tx, rx) = std::sync::mpsc::channel();
+            std::thread::spawn(move || {
+                let acp = ArrivalCurvePrefix::from_arrival_bound_until(&Never {}, d(10));
+                let v: Vec<Duration> = acp.steps_iter().take(2).collect();
+                let _ = tx.send(v.len());
+            });
+            rx.recv_timeout(std::time::Duration::from_secs(2)).is_err()
+        }
         _ => { eprintln!("unknown witness {}", id); return 2; }
     };
     println!("{} {}", id, if reproduces { "reproduces" } else { "does not reproduce" });
